@@ -251,8 +251,10 @@ def run(tier):
                        'anti-rollback version written from client_max_version. NOT decided: that altering a byte changes the transcript hash, '
                        'negotiation content, certificate policy (C04).',
                        trusted=['sa/t0.py decoder and IR-derived native effects', 'sa/t0ai.py kernel-word models', 'clang/opt 14'])
+    from .. import t0kernel
     for key in ('hs_client', 'hs_server'):
         t0_rules(chk, key)
+        t0kernel.check(chk, key)
     c_helpers(chk)
     chk.floor('rule instances', len(chk.obls), 30)
     return chk.finish()
